@@ -58,7 +58,8 @@ def ast_to_string(value: datetime.datetime | str | None) -> str:
         return value
     if value is None:
         return ''
-    return to_iso_datetime(value)
+    # a '+' in the UTC offset would be decoded as a space by the query string parser
+    return to_iso_datetime(value).replace('+', '%2B')
 
 
 AvailabilityStartTime = DashOption(
